@@ -116,12 +116,11 @@ func checkC11(r *Run) {
 				if !highOK {
 					why = "p[total:total+chunkSize] is passed on a path where total+chunkSize ≤ len(p) is not established: slice bounds out of range"
 				}
-			} else if obj := objOf(info, sl.High); obj != nil {
-				// end clamped: end := total+chunkSize; if end > len(p) { end = len(p) }
+			} else {
+				// end clamped: a variable (end := total+chunkSize; if end > len(p) { end = len(p) })
+				// or an expression (min(len(p), total+chunkSize)), evaluated symbolically
 				ok2, w := clampHolds(r.L, res, ch, sl.High, clampSpec{Src: total + " + int(" + csz + ")", LimitStr: "len(" + pN + ")"})
 				highOK, why = ok2, "upper bound "+r.L.str(sl.High)+" "+w
-			} else {
-				why = "upper bound " + res.str(sl.High) + " is neither total+chunkSize nor a clamped end"
 			}
 		}
 		r.check(lowOK && highOK, "r2", key+" window", call.Pos(), "starts at the running total; "+why, fmt.Sprintf("chunk window is wrong (starts at total: %v): %s", lowOK, why))
